@@ -301,11 +301,82 @@ pub fn comparisons_with_cyclic_structures_have_no_memory() -> Vec<crate::expect:
 }
 
 /// runs the shared family and adds what it finds to the report
+/// Keys of every size.  A map is filled with tuples of every length 0..80 (of small numbers, of fractions and
+/// large numbers, of strings), with tuples nested 1-6 deep around a tuple of 13 and of 40 elements, with numbers
+/// at and beyond the limits of the machine integers, with long strings and with ranges whose bounds are extreme;
+/// each key is built twice (one object is inserted, the other one looked up, tested and finally removed), so
+/// every key is hashed and compared several times.  By construction: every lookup finds the value stored
+/// under the equal key, the map has one entry per key, and it is empty at the end.  (Also run by C10 on every
+/// build configuration: hashing is arithmetic on 64-bit words.)
+pub fn keys_of_every_size() -> Vec<crate::expect::Expect> {
+    use crate::expect::Expect;
+    let mut groups: Vec<(&'static str, Vec<String>)> = Vec::new();
+    let tuple_of = |items: Vec<String>| -> String {
+        match items.len() {
+            0 => "()".to_string(),
+            1 => format!("({},)", items[0]),
+            _ => format!("({})", items.join(", ")),
+        }
+    };
+    groups.push(("tuples of small numbers, every length", (0..=80usize).map(|n| tuple_of((1..=n).map(|i| i.to_string()).collect())).collect()));
+    groups.push(("tuples of fractions and large numbers, every length", (1..=80usize).map(|n| tuple_of((1..=n).map(|i| match i % 4 { 0 => format!("{}.5", i), 1 => format!("{}{}", i, "0".repeat(300)), 2 => format!("-{}", 9007199254740992u64 + i as u64), _ => format!("0.{}", i) }).collect())).collect()));
+    groups.push(("tuples of strings, every length", (1..=80usize).map(|n| tuple_of((1..=n).map(|i| format!("\"s{}\"", i)).collect())).collect()));
+    {
+        let mut v = Vec::new();
+        for base_len in [13usize, 40] {
+            let mut t = tuple_of((1..=base_len).map(|i| i.to_string()).collect());
+            for _ in 0..6 {
+                t = format!("({}, \"w\")", t);
+                v.push(t.clone());
+                v.push(format!("({},)", t));
+            }
+        }
+        groups.push(("long tuples inside tuples", v));
+    }
+    groups.push(("numbers at the limits", vec!["9223372036854775808", "9223372036854777856", "-9223372036854775808", "18446744073709551616", "9007199254740993", "1/0", "-1/0", "4294967295", "4294967296", "2147483647.5", "0.1", "0.000000000000000000001", "1000000000000000000000"].into_iter().map(String::from).chain([format!("1{}", "0".repeat(308)), format!("-1{}", "0".repeat(308))]).collect()));
+    groups.push(("long strings", (0..8usize).map(|k| format!("\"{}\"", "abcdefghij".repeat(1 + 13 * k))).collect()));
+    groups.push(("ranges with extreme bounds", vec!["0..9223372036854775807", "-9223372036854775807..0", "-9223372036854775807..9223372036854775807", "4294967295..4294967296", "9223372036854775806..9223372036854775807", "(0..9223372036854775807, -1..1)"].into_iter().map(String::from).collect()));
+    let mut out = Vec::new();
+    for (what, keys) in groups {
+        let mut src = String::from("var m = {};\nvar bad = 0;\n");
+        for (i, k) in keys.iter().enumerate() {
+            src.push_str(&format!("m.insert({}, {});\n", k, i));
+        }
+        src.push_str("print(m.len());\n");
+        for (i, k) in keys.iter().enumerate() {
+            src.push_str(&format!("{{ var k = {}; if m.get(k) != {} || !m.has_key(k) || !(k == {}) {{ bad += 1; print(\"wrong at key {}\"); }} }}\n", k, i, k, i));
+        }
+        src.push_str("print(bad);\nvar seen = 0;\nfor k in m.keys() { if m.has_key(k) { seen += 1; } }\nprint(seen);\n");
+        for k in keys.iter() {
+            src.push_str(&format!("m.remove({});\n", k));
+        }
+        src.push_str("print(m.len());\n");
+        let n = keys.len().to_string();
+        out.push(Expect {
+            family: "keys_of_every_size",
+            request: Request { op: "run".into(), snippets: vec![src], fuel: Some(50_000_000), ..Default::default() },
+            out: vec![vec![n.clone(), "0".into(), n, "0".into()]],
+            end: vec!["ok".into()],
+            describe: json!({"keys": what}),
+            nontrivial: true,
+        });
+    }
+    out
+}
+
 pub fn run_cyclic_family(ctx: &Ctx, report: &mut Report) {
     let cases = comparisons_with_cyclic_structures_have_no_memory();
     let n = cases.len();
     let st = crate::expect::run_expect(ctx, &ctx.runner_checked, cases.into_iter(), &|_e, _r| None, &|_e, _p| None);
     report.cov("comparisons_with_cyclic_structures_have_no_memory", json!({"programs": n, "rule": "six self-containing structures x seven plain containers x three orders of comparison: after comparing a plain container with a self-containing structure (the answer itself is not looked at) the plain container still equals a separately built copy both ways round, alone and inside other containers, still selects and overwrites one map entry, and the structure still equals itself"}));
+    report.violations.extend(st.violations);
+}
+
+pub fn run_keys_family(ctx: &Ctx, report: &mut Report) {
+    let cases = keys_of_every_size();
+    let n = cases.len();
+    let st = crate::expect::run_expect(ctx, &ctx.runner_checked, cases.into_iter(), &|_e, _r| None, &|_e, _p| None);
+    report.cov("keys_of_every_size", json!({"programs": n, "rule": "tuples of every length 0..80 (three element kinds), long tuples nested up to six deep, numbers at and beyond the machine's integer limits, long strings, ranges with extreme bounds: every key built twice, inserted, found through its equal copy, enumerated and removed"}));
     report.violations.extend(st.violations);
 }
 
@@ -498,5 +569,6 @@ pub fn run(ctx: &Ctx) -> Report {
     report.assumptions = vec!["keys/values/items are compared as multisets through order-independent probes".into(), "an overwritten entry keeps the key object that was inserted first".into()];
     report.violations = stats.violations;
     crate::c12::run_cyclic_family(ctx, &mut report);
+    crate::c12::run_keys_family(ctx, &mut report);
     report
 }
